@@ -430,6 +430,7 @@ def materialize(spec, path, nlev=None):
     z = ",".join("0" for _ in range(nd))
     truth = {}
     sh0 = int(spec.get("idx_shift", 0))
+    g = int(spec.get("nghost", 0))
     for lv in range(nlev):
         sh = sh0 * 2 ** lv
         ldir = os.path.join(path, level_dir(spec, lv))
@@ -452,18 +453,29 @@ def materialize(spec, path, nlev=None):
                     if n_in_file and spec.get("gap"):
                         bf.seek(int(spec["gap"]), 1)      # sparse hole: byte offsets beyond 2**31 at no cost on disk
                     offsets[bid] = bf.tell(); fnames[bid] = fname
-                    bf.write(fab_header([x + sh for x in lo], [x + sh for x in hi], nf))
+                    # "nghost": g >= 1 = a plotfile written WITH ghost cells (AMReX's WriteMultiLevelPlotfile keeps the grown
+                    # FABs when the MultiFabs carry ghost cells): every FAB on disk is the box grown by g cells in each
+                    # direction, its header names the grown box, the level header records g; the box table keeps the valid boxes
+                    bf.write(fab_header([x + sh - g for x in lo], [x + sh + g for x in hi], nf))
                     arrs = [np.asarray(box_data(spec, lv, bid, k), dtype="float64") for k in range(nf)]
+                    if g:
+                        rs = np.random.RandomState((int(spec["data"].get("seed", 0)) * 7919 + lv * 104729 + bid * 31 + 5) % (2 ** 31))
+                        grown = []
+                        for a in arrs:
+                            b = rs.standard_normal([n + 2 * g for n in a.shape])       # ghost values: unrelated to the interior
+                            b[tuple(slice(g, -g) for _ in a.shape)] = a
+                            grown.append(b)
+                        arrs = grown
                     for a in arrs:
                         bf.write(a.flatten(order="F").astype("<f8").tobytes())
-                    truth[(lv, bid)] = np.stack(arrs, axis=-1) if nf else np.zeros([hi[d]-lo[d]+1 for d in range(nd)] + [0])
+                    truth[(lv, bid)] = np.stack(arrs, axis=-1) if nf else np.zeros([hi[d]-lo[d]+1+2*g for d in range(nd)] + [0])
                     with np.errstate(invalid="ignore"):
                         mins[bid] = [np.min(a) for a in arrs]; maxs[bid] = [np.max(a) for a in arrs]
         if spec.get("stray_empty"):
             for k in sorted({2 * f for f in files} | {2 * f + 2 for f in files}):
                 open(os.path.join(ldir, f"Cell_D_{k:05d}"), "wb").close()
         with open(os.path.join(ldir, "Cell_H"), "w") as ch:
-            ch.write(f"1\n1\n{nf}\n{spec.get('ghost_line', '0')}\n({len(boxes)} 0\n")
+            ch.write(f"1\n1\n{nf}\n{spec.get('ghost_line', str(g))}\n({len(boxes)} 0\n")
             for lo, hi in boxes:
                 ch.write(f"(({','.join(str(x + sh) for x in lo)}) ({','.join(str(x + sh) for x in hi)}) ({z}))\n")
             ch.write(f")\n{len(boxes)}\n")
